@@ -164,7 +164,8 @@ void cmb_process_priority_set(struct cmb_process *pp, const int64_t pri)
         const struct cmi_process_awaitable *awp = cmi_container_of(ahead->next,
                                                    struct cmi_process_awaitable,
                                                    listhead);
-        if (awp->type == CMI_PROCESS_AWAITABLE_TIME) {
+        if (awp->type == CMI_PROCESS_AWAITABLE_TIME
+            || awp->type == CMI_PROCESS_AWAITABLE_HOLD) {
             /* Either in a hold() or a scheduled timer, reshuffle event queue */
             cmb_assert_debug(awp->handle != UINT64_C(0));
             cmb_event_reprioritize(awp->handle, pri);
@@ -268,16 +269,26 @@ bool cmi_process_remove_awaitable(struct cmb_process *pp,
     return false;
 }
 
+static void wakeup_event_time(void *vp, void *arg);
+
 int64_t cmb_process_hold(const double dur)
 {
     cmb_assert_release(dur >= 0.0);
 
     cmb_logger_info(stdout, "Holding for %f time units", dur);
 
-    /* Set ourselves a wakeup call, leaving any previous timers in place */
+    /*
+     * Set ourselves a wakeup call, leaving any previous timers in place. It is
+     * not one of the timers: clearing or setting the timers of this process
+     * from elsewhere must not take the end of the hold away.
+     */
     struct cmb_process *pp = cmb_process_current();
     cmb_assert_debug(pp != NULL);
-    const uint64_t handle = cmb_process_timer_add(pp, dur, CMB_PROCESS_SUCCESS);
+    const uint64_t handle = cmb_event_schedule(wakeup_event_time, pp,
+                                               (void *)CMB_PROCESS_SUCCESS,
+                                               cmb_time() + dur,
+                                               cmb_process_priority(pp));
+    cmi_process_add_awaitable(pp, CMI_PROCESS_AWAITABLE_HOLD, (void *)handle);
 
     /* Yield to the dispatcher and collect the return signal value when back */
     const int64_t sig = (int64_t)cmi_coroutine_yield(NULL);
@@ -286,8 +297,8 @@ int64_t cmb_process_hold(const double dur)
     if (sig != CMB_PROCESS_SUCCESS) {
         /* Whatever woke us up was not the scheduled wakeup call, cancel it */
         cmb_logger_info(stdout, "Woken up by signal %" PRIi64, sig);
-        cmb_process_timer_cancel(pp, handle);
-        cmi_process_remove_awaitable(pp, CMI_PROCESS_AWAITABLE_TIME, (void *)handle);
+        (void)cmb_event_cancel(handle);
+        cmi_process_remove_awaitable(pp, CMI_PROCESS_AWAITABLE_HOLD, (void *)handle);
     }
 
     return sig;
@@ -309,6 +320,9 @@ static void wakeup_event_time(void *vp, void *arg)
     const uint64_t thisevent = cmb_event_current();
     const bool found = cmi_process_remove_awaitable(pp,
                                                     CMI_PROCESS_AWAITABLE_TIME,
+                                                    (void *)thisevent)
+                    || cmi_process_remove_awaitable(pp,
+                                                    CMI_PROCESS_AWAITABLE_HOLD,
                                                     (void *)thisevent);
     cmb_assert_debug(found == true);
 
@@ -621,7 +635,8 @@ void cmi_process_cancel_awaiteds(struct cmb_process *pp)
                                                       struct cmi_process_awaitable,
                                                       listhead);
 
-        if (pa->type == CMI_PROCESS_AWAITABLE_TIME) {
+        if (pa->type == CMI_PROCESS_AWAITABLE_TIME
+            || pa->type == CMI_PROCESS_AWAITABLE_HOLD) {
             /* Waits for some timeout (hold or timer), cancel it */
             cmb_assert_debug(pa->handle != UINT64_C(0));
             (void)cmb_event_cancel(pa->handle);
